@@ -13,3 +13,10 @@ func verifPermute(roots []string) {
 		f(roots)
 	}
 }
+
+// VerifLegacySeal exposes the earlier hand-rolled box sealer (kept in this
+// package only for reference) so that a verification harness can validate its
+// own, independently written sealer for that format against it.
+func VerifLegacySeal(m []byte, n []byte, k *[32]byte) ([]byte, error) {
+	return crypto_secretbox_easy(m, n, k)
+}
